@@ -45,6 +45,8 @@ func init() {
 			{ID: "C10.22", Desc: "an entry whose recorded times cannot be read is unreadable", Run: func(c *Ctx) { ruleMetaTimesChecked(c, "C10.22") }, MinSites: 1},
 			{ID: "C10.23", Desc: "fields are set only on request headers that cannot be nil", Run: func(c *Ctx) { ruleRequestHeaderWritesNonNil(c, "C10.23") }, MinSites: 1},
 			{ID: "C10.24", Desc: "no nil dereference when the origin's response has no Body (closes are nil-guarded)", Run: func(c *Ctx) { ruleUpstreamBodyCloseGuarded(c, "C10.24") }, MinSites: 1},
+			{ID: "C10.25", Desc: "the origin's own response reaches the client readable (its body is not closed on the way)", Run: func(c *Ctx) { ruleForwardedBodyNotClosed(c, "C10.25") }, MinSites: 1},
+			{ID: "C10.26", Desc: "no error returned by a call is overwritten or dropped without having been looked at", Run: func(c *Ctx) { ruleNoDeadErrorValues(c, "C10.26") }, MinSites: 1},
 		},
 	})
 }
@@ -1261,7 +1263,12 @@ func ruleC10_13(c *Ctx) {
 				viaClone = true
 			}
 		case *ssa.MakeMap:
-			fresh = true
+			// the fresh map has to go into the clone, not into the request that was handed in
+			if _, isParam := c.An.canon(fa.X).(*ssa.Parameter); !isParam {
+				if _, isParam2 := fa.X.(*ssa.Parameter); !isParam2 {
+					fresh = true
+				}
+			}
 		}
 	})
 	// a clone made by http.Request.Clone has the same property (Header.Clone of nil is nil)
